@@ -37,7 +37,7 @@ def mutation_events(case, run):
     out = []
     sigs = [run['sig_before']] + run['sig_at_probe'] + [run['sig_after']]
     nprobe = len(run['sig_at_probe'])
-    for name in ('main', 'other', 'child', 'vars', 'shortcuts'):
+    for name in ('main', 'other', 'child', 'main.info', 'other.info', 'child.info', 'vars', 'shortcuts'):
         if name not in run['sig_before']:
             continue
         for n in range(1, len(sigs)):
@@ -55,6 +55,8 @@ def event_fingerprint(name, kind, paths):
         return f'configvars-mutated-via-{kind}'
     if name == 'shortcuts':
         return 'shortcuts-mutated'
+    if name.endswith('.info'):
+        return 'definition-info-mutated'
     classes = {path_class(p) for p in paths} or {'in'}
     if classes == {'in'}:
         return f'definition-mutated-via-in-{kind}'
@@ -125,6 +127,7 @@ class Prop(PropBase):
 
     # ---------------------------------------------------------------- model
     def coq_check(self, case, obs):
+        L.LOADER_SEEN[0] = obs.get('loader', 'vloader')
         if not L.in_model(case):
             return '2%nat'      # sets / foreach over a !py reference: monitors only
         if case.get('threads'):
@@ -133,6 +136,7 @@ class Prop(PropBase):
         return f'(c12_check {STEP} {L.coq_defs(case)} {L.coq_runs(case, c12_run.ORDER)} {observed})'
 
     def coq_model_obs(self, case):
+        L.LOADER_SEEN[0] = 'pypyr.loaders.file' if (case.get('file_loader') and not case.get('threads')) else 'vloader'
         if not L.in_model(case):
             return '2%nat'
         if case.get('threads'):
@@ -257,6 +261,8 @@ class Prop(PropBase):
                 tags.append('argList-is-the-shortcuts-list')
         if case.get('threads'):
             tags.append('threaded-same-pipeline' if case['threads'].get('same') else 'threaded')
+        if obs.get('two_loaders'):
+            tags.append('wrapping-loader-then-file-loader')
         if case.get('file_loader'):
             tags.append('real-file-loader:' + case['file_loader'].get('layout', 'name'))
         if case.get('vars_yaml'):
